@@ -478,11 +478,18 @@ impl<'a> Model<'a> {
         let formula_or_value = self
             .get_cell_formula(sheet, source_row, source_column)?
             .unwrap_or_else(|| {
-                source_cell.get_localized_text(
+                let text = source_cell.get_localized_text(
                     &self.workbook.shared_strings,
                     self.locale,
                     self.language,
-                )
+                );
+                // A quote-prefixed cell is text whatever it looks like: re-enter it with
+                // its apostrophe, otherwise '123 would come back as the number 123
+                if self.workbook.styles.style_is_quote_prefix(style) {
+                    format!("'{text}")
+                } else {
+                    text
+                }
             });
 
         if let Some((width, height)) = array {
@@ -1053,11 +1060,16 @@ impl<'a> Model<'a> {
             let formula_or_value =
                 self.get_cell_formula(sheet, r.row, column)?
                     .unwrap_or_else(|| {
-                        cell.get_localized_text(
+                        let text = cell.get_localized_text(
                             &self.workbook.shared_strings,
                             self.locale,
                             self.language,
-                        )
+                        );
+                        if self.workbook.styles.style_is_quote_prefix(style_idx) {
+                            format!("'{text}")
+                        } else {
+                            text
+                        }
                     });
 
             let mut array = None;
@@ -1203,7 +1215,16 @@ impl<'a> Model<'a> {
                 .ok_or("Expected Cell to exist")?;
             let style_idx = cell.get_style();
             let formula_or_value = self.get_cell_formula(sheet, row, *c)?.unwrap_or_else(|| {
-                cell.get_localized_text(&self.workbook.shared_strings, self.locale, self.language)
+                let text = cell.get_localized_text(
+                    &self.workbook.shared_strings,
+                    self.locale,
+                    self.language,
+                );
+                if self.workbook.styles.style_is_quote_prefix(style_idx) {
+                    format!("'{text}")
+                } else {
+                    text
+                }
             });
             let mut array = None;
 
